@@ -13,6 +13,10 @@ def flows(case):
   return [build.arr(x) for x in case['probes']]
 
 
+def int_arr(ip):
+  return G.np().array([int(Fraction(v)) for v in ip], dtype=int)
+
+
 def shaped(case, x):
   return x.reshape(1, -1) if case.get('_shape') == 'row' else x
 
@@ -53,7 +57,7 @@ class C03(Prop):
   rule = ('every atomic class x horizon n (1..8 quick, ..31 thorough) x cumulative-bound form (none, 2-tuple, one 4-tuple whole/sub-range, '
           'several contiguous, several overlapping, nested; CDevice2 default) x storage (efficiency/sustainment =1 and <1, rate_clip absent / None / scalar k / '
           '(k, None) / (None, k) / (k1, k2) with k1 != k2, reserve 0 and >0; 12 %: parameter changed through its setter after a first read of .constraints) x ADevice user constraints (eq/ineq, with/without jac); probes: interior, box vertices, '
-          'exactly on a cumulative limit, 1/64 inside/outside it, outside the box, storage over/under-fill. non-trivial: >= 1 cumulative '
+          'exactly on a cumulative limit, 1/64 inside/outside it, outside the box, storage over/under-fill, plus one all-integer flow passed as an INTEGER-typed array; flows presented as (n,) or (1, n); the list taken from the first or the second read of .constraints. non-trivial: >= 1 cumulative '
           'bound or storage, and the probes fall on both sides of >= 1 documented constraint')
   sizes = {'quick': 1200, 'thorough': 8000}
   assumptions = ['T2 compares, per exported constraint, (type, value at each probe flow), as a multiset: each model row is paired with the nearest unused implementation row (no rounding, no sort key)',
@@ -70,17 +74,29 @@ class C03(Prop):
       d, tag = G.gen_cons_leaf(rng, tier)
       case = {'dev': d, 'probes': G.gen_probes(rng, d), '_shape': rng.choice(['flat', 'flat', 'row']), 'tag': tag,
               'oseed': rng.randrange(1 << 30)}
+      # glue: one all-integer flow handed over as an INTEGER-typed array; the list as a second read of .constraints returns it
+      case['iprobe'] = [str(v) for v in G.int_flow(rng, [C.F(x) for x in d['lb']], [C.F(x) for x in d['hb']])]
+      case['_reads'] = rng.choice([1, 2])
       out.append(case)
-    G.prefetch([{'op': 'cons.leaf', 'dev': c['dev'], 'probes': c['probes'], 'jac': False} for c in out])
+    G.prefetch([self.line(c) for c in out])
     return out
+
+  def line(self, case):
+    return {'op': 'cons.leaf', 'dev': case['dev'], 'probes': list(case['probes']) + ([case['iprobe']] if case.get('iprobe') else []), 'jac': False}
 
   def ops(self, case):
     d = case['dev']
     dev = G.build_dev(d, 'dev')
     P = [shaped(case, x) for x in flows(case)]
-    line = {'op': 'cons.leaf', 'dev': d, 'probes': case['probes'], 'jac': False}
+    PI = P + ([shaped(case, int_arr(case['iprobe']))] if case.get('iprobe') else [])
+    line = self.line(case)
     mrows = G.model_rows(line)
-    ops = [Op(line, lambda: G.align_rows(mrows, G.impl_rows(dev.constraints, P, False)), 1e-9, 'constraint (type, value) rows')]
+    def impl():
+      cons = dev.constraints
+      if case.get('_reads') == 2:
+        cons = dev.constraints
+      return G.align_rows(mrows, G.impl_rows(cons, PI, False))
+    ops = [Op(line, impl, 1e-9, 'constraint (type, value) rows' + (' (second read)' if case.get('_reads') == 2 else ''))]
     if d['cls'] == 'SDevice':
       ops.append(Op({'op': 'cons.charge', 'dev': d, 'probes': case['probes']},
                     lambda: [dev.charge_at(x.reshape(-1)) for x in P], 1e-9, 'charge_at'))
@@ -131,7 +147,23 @@ class C03(Prop):
         if 0 <= t <= 1:
           probes.append([u + t*(v - u) for u, v in zip(a, b)])
     row = case.get('_shape') == 'row'
+    if case.get('iprobe'):
+      xi = int_arr(case['iprobe'])
+      probes.append([float(v) for v in xi])
+      try:
+        si, sf = exported_slacks(dev, xi, row), exported_slacks(dev, xi.astype(float), row)
+        bad = [(a[0], a[1], b[1]) for a, b in zip(si, sf) if abs(a[1] - b[1]) > 1e-12*max(1.0, abs(b[1]))]
+        if len(si) != len(sf):
+          fails.append({'key': key('second-read'), 'detail': '%s n=%d: two consecutive reads of .constraints return lists of %d and %d entries'
+                        % (cls, n, len(si) - 2*n, len(sf) - 2*n) + ctx})
+        elif bad:
+          fails.append({'key': key('int-flow'), 'detail': '%s n=%d: at the integer-typed flow %s the exported %s evaluates to %r, at the same flow as float to %r'
+                        % (cls, n, xi.tolist(), bad[0][0] if bad else 'list', bad[0][1] if bad else len(si), bad[0][2] if bad else len(sf)) + ctx})
+      except Exception as e:
+        fails.append({'key': key('constraint-raises'), 'detail': '%s: evaluating the exported constraints at the integer-typed flow %s raised %s: %s' % (cls, xi.tolist(), type(e).__name__, str(e)[:120]) + ctx})
     for x in probes:
+      if fails:
+        break
       xa = np.array(x, dtype=float)
       try:
         ex = exported_slacks(dev, xa, row)
